@@ -752,14 +752,10 @@ class Duration(metaclass=_DurationMeta):
         :return: A ``Duration`` representing the given number of ticks.
         """
         if isinstance(ticks, int):
-            # TODO: FromTicks(long) never throws.
-            #  Noda Time has the following comment:
-            #  "No precondition here, as we cover a wider range than Int64 ticks can handle..."
-            #  If this ever changes, the test_factory_methods_out_of_range test will need changed too.
+            # Noda Time's FromTicks(long) never throws, because a long cannot leave Duration's range.
+            # A Python int can, so the number of days is validated like in the other factory methods.
             days, tick_of_day = _TickArithmetic.ticks_to_days_and_tick_of_day(ticks)
-            return cls.__ctor(
-                days=days, nano_of_day=tick_of_day * PyodaConstants.NANOSECONDS_PER_TICK, no_validation=True
-            )
+            return cls._ctor(days=days, nano_of_day=tick_of_day * PyodaConstants.NANOSECONDS_PER_TICK)
 
         _Preconditions._check_argument_range(
             "ticks",
